@@ -49,8 +49,8 @@ Qed.
 Theorem parse_repl_partition o s items :
   parse_repl o s = Parsed items ->
   exists ll gs,
-    length ll = length (splitlines (normalize_docstring s)) /\
-    Forall2 SameLineUpToHack ll (splitlines (normalize_docstring s)) /\
+    length ll = length (srclines (normalize_docstring s)) /\
+    Forall2 SameLineUpToHack ll (srclines (normalize_docstring s)) /\
     flatten_chunks gs = map snd ll /\
     Tiled 0 gs items.
 Proof.
